@@ -916,6 +916,12 @@ impl<VM: VMBinding> ImmixSpace<VM> {
     pub(crate) fn is_defrag_enabled(&self) -> bool {
         !self.space_args.never_move_objects
     }
+
+    /// Verification accessor: the current value of the private `line_unavail_state`.
+    #[cfg(feature = "verif")]
+    pub(crate) fn verif_line_unavail_state(&self) -> u8 {
+        self.line_unavail_state.load(Ordering::Acquire)
+    }
 }
 
 /// A work packet to prepare each block for a major GC.
